@@ -469,6 +469,19 @@ func init() {
 		return Val{T: types.Typ[types.String], L: []string{app(ex.declFun("uf|tolower", []string{sStr}, sStr), c.args[0].L[0])}}
 	}
 
+	// ---- reflect (only what NewGroup uses) ----
+	s["reflect.ValueOf"] = func(ex *Exec, fr *Frame, st *State, c *callCtx) Val {
+		a := c.args[0]
+		if len(a.L) == 2 {
+			return Val{T: c.results().At(0).Type(), L: []string{a.L[0], a.L[1]}}
+		}
+		return ex.freshVal("reflectvalue", c.results().At(0).Type())
+	}
+	s["(reflect.Value).IsNil"] = func(ex *Exec, fr *Frame, st *State, c *callCtx) Val {
+		// for pointer kinds: the pointer is nil (other kinds panic or are handled by the caller; trusted)
+		return boolV(eq(c.args[0].L[1], "0"))
+	}
+
 	// ---- miekg/dns ----
 	s["(*github.com/miekg/dns.Msg).SetRcode"] = func(ex *Exec, fr *Frame, st *State, c *callCtx) Val {
 		// fills the receiver as a reply to the request and returns the receiver
